@@ -192,6 +192,12 @@ def make_param(E, p, name, kind):
     if isinstance(kind, CT.Lit):
         return I.C(kind.value)
     if isinstance(kind, CT.OneOf):
+        restrict = getattr(E, 'param_restrict', None) or {}
+        if name in restrict:
+            # this run covers one alternative of the parameter kind only (the others are separate jobs)
+            k = restrict[name]
+            p.labels.append('%s:alt%d' % (name, k))
+            return make_param(E, p, name, kind.kinds[k])
         k = p.choose([z3.BoolVal(True)] * len(kind.kinds), ['%s:alt%d' % (name, j) for j in range(len(kind.kinds))])
         return make_param(E, p, name, kind.kinds[k])
     if isinstance(kind, CT.AnyVal):
@@ -387,7 +393,6 @@ class Verifier:
             return ob
         E.saturate(p.solver.assertions() + [g])
         s = z3.Solver()
-        s.set('timeout', self.timeout)
         s.set('rlimit', self.rlimit)
         s.set('random_seed', 0)
         for a in p.solver.assertions():
@@ -407,7 +412,6 @@ class Verifier:
             # beyond their instances), so it is a verdict only when stage 2 does not contradict
             # it: unsat -> discharged, sat -> failed, unknown -> undecided (never `failed`).
             s2 = z3.Solver()
-            s2.set('timeout', self.timeout)
             s2.set('rlimit', self.rlimit)
             s2.set('random_seed', 0)
             for a in s.assertions():
@@ -446,8 +450,12 @@ class Verifier:
         rep.obligations.append(ob)
         return ob
 
-    def verify(self, E, con):
-        """Verify one contract class against the function it targets."""
+    def verify(self, E, con, restrict=None):
+        """Verify one contract class against the function it targets.  ``restrict`` = {param: k}
+        limits a OneOf parameter to its k-th alternative (case split across processes)."""
+        restrict = dict(restrict or {})
+        E.force_choices = restrict.pop('#choices', None)
+        E.param_restrict = restrict
         rep = FunctionReport(con.target)
         t0 = time.time()
         vals.reset_axioms()
